@@ -12,7 +12,7 @@ import vlib
 from vlib import boollit, coqlist, optz, zlist, zlit
 
 PROPERTY = "C10"
-MODEL_TARGETS = ["Model/Tsl.vo", "Model/TslText.vo"]
+MODEL_TARGETS = ["Model/Tsl.vo", "Model/TslText.vo", "Model/TslOps.vo"]
 RULE = ("layouts of rank 1-4, tile depth 1-3; bounds from {1,2,3,4,5,6,8}; steps from the induced contiguous "
         "lattice (permuted), padded lattices, random positive steps, repeated steps; dynamic outermost "
         "bound/step; offsets incl. negative and dynamic; a case is non-trivial when the layout has >= 2 "
@@ -179,7 +179,7 @@ def correspondence(ctx):
     from snaxc.dialects.tsl import TiledStridedLayoutAttr
     rng = ctx.rng
     n = ctx.n(300, 4000)
-    cases = {k: [] for k in ("canon", "allv", "ovl", "dense", "aff", "from", "lccb", "tb", "print", "parse")}
+    cases = {k: [] for k in ("canon", "allv", "ovl", "dense", "aff", "from", "lccb", "tb", "print", "parse", "bops", "sops", "subview")}
     meta = {k: [] for k in cases}
     for i in range(n):
         ts, off = gen_layout(rng)
@@ -196,6 +196,8 @@ def correspondence(ctx):
         cases["tb"].append(f"({L}, {coqlist(coqlist(optz(b) for b in bs) for bs in tb)})")
         meta["tb"].append((ts, off))
         ctx.count({"method": "tile_bounds", "layout": str(l)}, nt, f"tb{ts}", "tile_bounds")
+        # run-time views: bound ops / step ops evaluated, subview pointer arithmetic
+        _ops_cases(rng, ctx, ts, off, l, L, nt, cases, meta)
         # textual form: printed tokens, and the real parser on (possibly damaged) text
         body = str(l)
         ptoks = tokenize(body)
@@ -254,7 +256,8 @@ def correspondence(ctx):
         except Exception as e:  # pragma: no cover
             ctx.notes.append(f"lccb raised {e!r} on {l} / {l2}")
 
-    text = ["From Snax Require Import Base.Prelude Model.Tsl Model.TslText.",
+    text = ["From Snax Require Import Base.Prelude Model.Tsl Model.TslText Model.TslOps.",
+            "Definition opt_zll_eqb (a b : option (list (list Z))) : bool := match a, b with Some x, Some y => list_eqb (list_eqb Z.eqb) x y | None, None => true | _, _ => false end.",
             "Definition opt_layout_eqb (a b : option layout) : bool := match a, b with Some x, Some y => layout_eqb x y | None, None => true | _, _ => false end."]
     tests = {
         "canon": "fun c : layout * layout => layout_eqb (canonicalize (fst c)) (snd c)",
@@ -265,6 +268,9 @@ def correspondence(ctx):
         "aff": "fun c : layout * list Z * Z => affine_map_eval (fst (fst c)) (snd (fst c)) =? snd c",
         "from": "fun c : option Z * list (option Z) * tstride => tstride_eqb (from_stride (fst (fst c)) (snd (fst c))) (snd c)",
         "lccb": "fun c : layout * layout * Z * list stride => match c with (a, b, s, r) => tstride_eqb (lccb a b s) r end",
+        "bops": "fun c : layout * list Z * option (list (list Z)) => opt_zll_eqb (bound_vals (tstrides (fst (fst c))) (snd (fst c))) (snd c)",
+        "sops": "fun c : layout * list (list Z) * Z * list Z => match c with (l, bv, el, r) => list_eqb Z.eqb (step_vals l bv el) r end",
+        "subview": "fun c : layout * Z * list (nat * Z) * Z => match c with (l, el, offs, r) => zsum (map (fun p : nat * Z => subview_contrib (nth (fst p) (tstrides l) []) el (snd p)) offs) =? r end",
         "print": "fun c : layout * list tok => list_eqb tok_eqb (print_layout (fst c)) (snd c)",
         "parse": "fun c : list tok * option layout => opt_layout_eqb (parse_layout (fst c)) (snd c)",
     }
@@ -284,6 +290,126 @@ def correspondence(ctx):
         for idx in lists[0]:
             dis.append({"name": f"L1:{k}", "case": meta[k][idx], "coq_case": cases[k][idx][:600]})
     return dis
+
+
+def _eval_arith(val, env):
+    """Evaluate an index-typed SSA value produced by arith ops (trusted mini-interpreter)."""
+    from xdsl.dialects.arith import AddiOp, ConstantOp, DivUIOp, MuliOp
+    if val in env:
+        return env[val]
+    op = val.owner
+    if isinstance(op, ConstantOp):
+        return op.value.value.data
+    if isinstance(op, DivUIOp):
+        return _eval_arith(op.lhs, env) // _eval_arith(op.rhs, env)
+    if isinstance(op, MuliOp):
+        return _eval_arith(op.lhs, env) * _eval_arith(op.rhs, env)
+    if isinstance(op, AddiOp):
+        return _eval_arith(op.lhs, env) + _eval_arith(op.rhs, env)
+    if op.name == "memref.extract_aligned_pointer_as_index":
+        return 0
+    raise ValueError(f"cannot evaluate {op.name}")
+
+
+_ELT = {1: "i8", 2: "i16", 4: "i32", 8: "i64"}
+
+
+def _ops_cases(rng, ctx, ts, off, l, L, nt, cases, meta):
+    from xdsl.dialects.arith import ConstantOp
+    from xdsl.dialects.builtin import IndexType, IntegerType, MemRefType
+    from xdsl.utils.test_value import create_ssa_value
+    from snaxc.dialects.tsl import TiledStridedLayoutAttr
+    a = TiledStridedLayoutAttr(l)
+    # bound ops
+    shape = []
+    for t in ts:
+        inner = _prod(b for (_, b) in t if b)
+        if t[0][1] is None:
+            shape.append(inner * rng.choice([1, 2, 3, 5]) + (rng.choice([0, 0, 1]) if inner > 1 else 0))
+        else:
+            shape.append(inner)
+    try:
+        _, mp = a.get_bound_ops([ConstantOp.from_int_and_width(n, IndexType()) for n in shape])
+        bv = [[_eval_arith(mp[(d, k)].results[0], {}) for k in range(len(ts[d]))] for d in range(len(ts))]
+        exp = "(Some " + coqlist(zlist(b) for b in bv) + ")"
+    except AssertionError:
+        mp, bv, exp = None, None, "None"
+    cases["bops"].append(f"({L}, {zlist(shape)}, {exp})")
+    meta["bops"].append((ts, shape))
+    ctx.count({"method": "get_bound_ops", "layout": str(l), "shape": shape, "bounds": bv}, nt, f"bo{ts}{shape}", "bound_ops")
+    if mp is not None and all(len(t) > 0 for t in ts) and len(ts) > 0:
+        el = rng.choice([1, 2, 4, 8])
+        in_bytes = rng.random() < 0.7
+        try:
+            if in_bytes:
+                mt = MemRefType(IntegerType(8 * el), [-1 if t[0][1] is None else n for t, n in zip(ts, shape)], a)
+                _, smp = a.get_step_ops(mp, create_ssa_value(mt), in_bytes=True)
+            else:
+                el = 1
+                _, smp = a.get_step_ops(mp)
+            sv = [_eval_arith(smp[(d, k)].results[0], {}) for d in range(len(ts)) for k in range(len(ts[d]))]
+            cases["sops"].append(f"({L}, {coqlist(zlist(b) for b in bv)}, {zlit(el)}, {zlist(sv)})")
+            meta["sops"].append((ts, bv, el))
+            ctx.count({"method": "get_step_ops", "layout": str(l), "el_bytes": el, "steps": sv}, nt, f"so{ts}{bv}{el}", "step_ops")
+        except Exception as e:  # pragma: no cover
+            ctx.notes.append(f"get_step_ops raised {e!r} on {l}")
+    # subview pointer (static layouts only; every inner bound static by construction)
+    if is_static(ts) and all(b > 0 and s > 0 for t in ts for (s, b) in t):
+        r = _subview_case(rng, ts, l)
+        if r is not None:
+            el, offs, delta = r
+            cases["subview"].append(f"({L}, {zlit(el)}, {coqlist(f'({d}%nat, {zlit(o)})' for d, o in offs)}, {zlit(delta)})")
+            meta["subview"].append((ts, el, offs))
+            ctx.count({"method": "LowerExtractAlignedPointerOp", "layout": str(l), "el_bytes": el, "offsets": offs, "delta": delta}, nt, f"sv{ts}{el}{offs}", "subview")
+
+
+_OPT = []
+
+
+def _subview_case(rng, ts, l):
+    from xdsl.parser import Parser
+    from snaxc.transforms.convert_memref_to_arith import ConvertMemrefToArithPass
+    if not _OPT:
+        from snaxc.tools.snax_opt_main import SNAXOptMain
+        _OPT.append(SNAXOptMain(args=[str(vlib.VERIF / "notes" / "probe_c07_zero_trip.mlir")]).ctx)
+    xctx = _OPT[0]
+    el = rng.choice([1, 2, 4, 8])
+    shape = [_prod(b for (_, b) in t) for t in ts]
+    dyn = [d for d in range(len(ts)) if rng.random() < 0.6]
+    if not dyn:
+        dyn = [rng.randrange(len(ts))]
+    offs = []
+    for d in dyn:
+        inner = _prod(b for (_, b) in ts[d][1:])
+        if rng.random() < 0.75:
+            offs.append((d, inner * rng.randrange(0, max(1, ts[d][0][1]))))
+        else:
+            offs.append((d, rng.randrange(0, shape[d])))
+    srct = f"memref<{'x'.join(map(str, shape))}x{_ELT[el]}, #tsl.tsl<{l}>>"
+    rest = f"memref<{'x'.join(['1'] * len(shape))}x{_ELT[el]}>"
+    lines = [f'%src = "test.op"() : () -> ({srct})']
+    names = {}
+    for d, _ in offs:
+        lines.append(f'%o{d} = "test.op"() : () -> (index)')
+        names[d] = f"%o{d}"
+    offtxt = ", ".join(names.get(d, "0") for d in range(len(shape)))
+    lines.append(f"%sv = memref.subview %src[{offtxt}] [{', '.join(['1'] * len(shape))}] [{', '.join(['1'] * len(shape))}] : {srct} to {rest}")
+    lines.append(f'%p = "memref.extract_aligned_pointer_as_index"(%sv) : ({rest}) -> index')
+    lines.append('"test.op"(%p) : (index) -> ()')
+    try:
+        mod = Parser(xctx, "\n".join(lines)).parse_module()
+        ConvertMemrefToArithPass().apply(xctx, mod)
+        ops = list(mod.body.block.ops)
+        env = {}
+        k = 0
+        for op in ops:
+            if op.name == "test.op" and len(op.results) == 1 and str(op.results[0].type) == "index":
+                env[op.results[0]] = offs[k][1]
+                k += 1
+        final = ops[-1]
+        return el, offs, _eval_arith(final.operands[0], env)
+    except Exception as e:
+        return None
 
 
 def _prod(xs):
